@@ -66,6 +66,24 @@ def qr_norm(uhf=False, n=3, k=2):
     got_w = [np.asarray(x, dtype=object) for x in (wk if uhf else [wk])]
     for s in range(len(hA)):
         out.append(H.identity(name + f".q{s}", got_w[s], hQ[s]["V"].s, functions=fns, inputs=inp, t0=t0, note="returned walkers are the Q factors"))
+    if any(o["status"] == REFUTED for o in out):
+        # native replay: the real function on the numeric walkers; reference = numpy QR of each walker and spin block separately
+        ax = [np.asarray(h["V"].x) for h in hA]
+        wk_n, norms_n = fn([jnp.asarray(a) for a in ax] if uhf else jnp.asarray(ax[0]))
+        norms_n = np.asarray(norms_n).reshape(len(hA), nw)
+        wk_n = [np.asarray(x) for x in (wk_n if uhf else [wk_n])]
+        dev_norm, dev_span = 0.0, 0.0
+        for s_ in range(len(hA)):
+            for w in range(nw):
+                q, r = np.linalg.qr(ax[s_][w])
+                # QR is unique up to column phases: compare |norm| and the projector onto the span
+                dev_norm = max(dev_norm, abs(abs(norms_n[s_, w]) - abs(np.prod(np.diag(r)))))
+                dev_span = max(dev_span, float(np.abs(wk_n[s_][w] @ wk_n[s_][w].conj().T - q @ q.conj().T).max()))
+        for o in out:
+            if o["status"] == REFUTED:
+                dev = dev_norm if o["name"].endswith(".det") else dev_span
+                o["replayed"] = bool(dev > 1e-9)
+                o["witness"] = dict(o.get("witness") or {}, native=dict(walkers=[a.tolist() for a in ax], abs_norm_factor_deviation=float(dev_norm), projector_deviation=dev_span))
     return out
 
 
